@@ -32,10 +32,14 @@ struct Cfg {
     /// run on the real pest::Stack (no stub set S): needed where PEEK_ALL / POP_ALL / PEEK[a..b] index the stack
     /// (Index trait impls cannot be stubbed); only for straight-line rules without enclosing snapshots
     real_stack: bool,
+    /// "kind:rule" pairs whose quick-length harness runs in the thorough tier only (too dear for every change)
+    thorough_only: Vec<String>,
+    /// "kind:rule" pairs not emitted at all (e.g. a token-children harness for a rule that has no child tokens)
+    skip_kinds: Vec<String>,
 }
 
 fn header(text: &str) -> Cfg {
-    let mut c = Cfg { alphabet: "abx".into(), n: (3, 4), entries: None, kinds: vec!["c01".into()], variants: vec![], unwind: None, known: vec![], kinds_given: false, nparse: None, real_stack: false };
+    let mut c = Cfg { alphabet: "abx".into(), n: (3, 4), entries: None, kinds: vec!["c01".into()], variants: vec![], unwind: None, known: vec![], kinds_given: false, nparse: None, real_stack: false, thorough_only: vec![], skip_kinds: vec![] };
     for l in text.lines() {
         let l = l.trim();
         if let Some(r) = l.strip_prefix("//! alphabet:") {
@@ -44,6 +48,10 @@ fn header(text: &str) -> Cfg {
         } else if let Some(r) = l.strip_prefix("//! n:") {
             let v: Vec<usize> = r.split_whitespace().map(|x| x.parse().unwrap()).collect();
             c.n = (v[0], *v.get(1).unwrap_or(&v[0]));
+        } else if let Some(r) = l.strip_prefix("//! skip_kinds:") {
+            c.skip_kinds = r.split_whitespace().map(String::from).collect();
+        } else if let Some(r) = l.strip_prefix("//! thorough_only:") {
+            c.thorough_only = r.split_whitespace().map(String::from).collect();
         } else if let Some(r) = l.strip_prefix("//! stack:") {
             c.real_stack = r.trim() == "real";
         } else if let Some(r) = l.strip_prefix("//! nparse:") {
@@ -402,6 +410,9 @@ fn generate(name: &str, text: &str) -> String {
         for r in &entries {
             for k in &cfg.kinds {
                 for v in &variants {
+                    if cfg.skip_kinds.iter().any(|x| x == &format!("{}:{}", k, r.name)) {
+                        continue;
+                    }
                     let tree_kind = k != "c01" || v != "default";
                     let np = cfg.nparse.unwrap_or(cfg.n);
                     let (nq, nt) = if tree_kind { np } else { cfg.n };
@@ -440,9 +451,10 @@ fn generate(name: &str, text: &str) -> String {
                         "c04" => format!(", {}", matches!(r.ty, RuleType::Atomic | RuleType::CompoundAtomic)),
                         _ => String::new(),
                     };
+                    let slow = cfg.thorough_only.iter().any(|x| x == &format!("{}:{}", k, r.name));
                     let (t, kdesc) = match known {
                         Some((_, _, id)) => ("K".to_string(), format!(" - twin of known finding {}, expected to FAIL", id)),
-                        None => (tier.to_string(), String::new()),
+                        None => (if slow { "T".to_string() } else { tier.to_string() }, String::new()),
                     };
                     if known.is_some() && tier == "T" {
                         continue;
